@@ -292,4 +292,62 @@ example :
 example : (IsOption (.variant "some" [.int 3])) ∧ tryVal (.variant "none" []) St.init = .sig (.ret (.variant "none" [])) St.init :=
   ⟨.some _, rfl⟩
 
+/-! ### the static rule and why it is the right one -/
+
+/-- **`?` is accepted exactly between equal families**: both options, or both results with the same error type. -/
+theorem C23_try_accepted_iff (o r : TryFam) :
+    tryAccepted o r = true ↔ (o = .option ∧ r = .option) ∨ ∃ e, o = .result e ∧ r = .result e := by
+  cases o with
+  | option => cases r <;> simp [tryAccepted]
+  | plain => cases r <;> simp [tryAccepted]
+  | result e =>
+    cases r with
+    | option => simp [tryAccepted]
+    | plain => simp [tryAccepted]
+    | result e' =>
+      simp only [tryAccepted, beq_iff_eq, reduceCtorEq, false_and, false_or, TryFam.result.injEq]
+      constructor
+      · rintro rfl; exact ⟨e, rfl, rfl⟩
+      · rintro ⟨x, rfl, rfl⟩; rfl
+
+/-- **What `?` returns early belongs to the operand's family** (and the state is untouched): `none` for an option,
+    `err(x)` with the operand's own payload for a result.  So the enclosing function has to return that family —
+    the accepted combinations of `C23_try_accepted_iff` are exactly those where the early return is well typed. -/
+theorem C23_try_residual_in_family (fam : TryFam) (v w : Sem.Val) (s s' : St)
+    (hv : InFam fam v) (h : tryVal v s = .sig (.ret w) s') : InFam fam w ∧ s' = s ∧ fam ≠ .plain := by
+  cases fam with
+  | option =>
+    rcases hv with rfl | ⟨x, rfl⟩
+    · simp only [tryVal, Res.sig.injEq, Sig.ret.injEq] at h
+      obtain ⟨rfl, rfl⟩ := h
+      exact ⟨.inl rfl, rfl, by simp⟩
+    · simp [tryVal] at h
+  | result e =>
+    rcases hv with ⟨x, rfl⟩ | ⟨x, rfl⟩
+    · simp [tryVal] at h
+    · simp only [tryVal, Res.sig.injEq, Sig.ret.injEq] at h
+      obtain ⟨rfl, rfl⟩ := h
+      exact ⟨.inr ⟨x, rfl⟩, rfl, by simp⟩
+  | plain =>
+    obtain ⟨h1, h2, h3, h4⟩ := hv
+    exfalso
+    unfold tryVal at h
+    split at h <;> first | (cases h; done) | exact h1 rfl | exact h2 _ rfl | exact h3 _ rfl | exact h4 _ rfl
+
+/-- on a value that is neither an option nor a result `?` has no meaning at all (the reference evaluation is stuck):
+    the checker has to reject such an operand, and it does (`tryAccepted .plain _ = false`) -/
+theorem C23_try_plain_has_no_meaning (v : Sem.Val) (s : St) (hv : InFam .plain v) :
+    (∃ why, tryVal v s = .stuck why) ∧ ∀ r, tryAccepted .plain r = false := by
+  obtain ⟨h1, h2, h3, h4⟩ := hv
+  refine ⟨?_, fun r => by cases r <;> rfl⟩
+  unfold tryVal
+  split <;> first | exact ⟨_, rfl⟩ | exact absurd rfl h1 | exact absurd rfl (h2 _) | exact absurd rfl (h3 _) | exact absurd rfl (h4 _)
+
+/-! non-vacuity of `InFam` -/
+example : InFam .option (.variant "none" []) ∧ InFam (.result "string") (.variant "err" [.str "e"]) ∧ InFam .plain (.int 3) :=
+  ⟨.inl rfl, .inr ⟨_, rfl⟩, by simp [InFam]⟩
+example : tryVal (.variant "err" [.str "e"]) St.init = .sig (.ret (.variant "err" [.str "e"])) St.init := rfl
+example : tryAccepted .option (.result "string") = false ∧ tryAccepted (.result "int") (.result "string") = false ∧
+    tryAccepted (.result "string") (.result "string") = true := by decide
+
 end Abra.TryLower
